@@ -5,7 +5,6 @@ package nodeconf
 import (
 	"context"
 	"sync"
-	"time"
 	"encoding/hex"
 	"fmt"
 	"sort"
@@ -122,18 +121,17 @@ func newParticipant(self string, appCfg rnc.Configuration, stored, update *rnc.C
 		return nil, closeFn, err
 	}
 	if update != nil {
-		// the periodic sync calls the source immediately; wait (hang detection only) until the
-		// delivered configuration is the active one
+		// the update loop runs once: periodicsync calls the update function first thing in its goroutine
+		// and Close waits for that goroutine, so after Run+Close exactly one update round has completed
+		// (no wall-clock assumption). The source answers relative to the id it is asked about.
 		if err = svc.Run(context.Background()); err != nil {
 			return nil, closeFn, err
 		}
-		closeFn = func() { svc.Close(context.Background()) }
-		deadline := time.Now().Add(20 * time.Second)
-		for svc.Configuration().Id != update.Id {
-			if time.Now().After(deadline) {
-				return svc, closeFn, fmt.Errorf("the configuration delivered by the source was not adopted")
-			}
-			time.Sleep(time.Millisecond)
+		if err = svc.Close(context.Background()); err != nil {
+			return svc, closeFn, err
+		}
+		if svc.Configuration().Id != update.Id {
+			return svc, closeFn, fmt.Errorf("after one round of the update loop the participant is on configuration %q, the network's current one is %q (source was asked %d times)", svc.Configuration().Id, update.Id, src.calls)
 		}
 	}
 	return svc, closeFn, nil
@@ -441,7 +439,7 @@ type participant struct {
 	svc   rnc.Service
 }
 
-var initPaths = []string{"fresh", "stored-equal", "stored-merge-node", "stored-merge-addr", "stored-newer", "updated"}
+var initPaths = []string{"fresh", "stored-equal", "stored-merge-node", "stored-merge-addr", "stored-newer", "updated", "stored-older-bundle-current", "stored-older-bundle-older"}
 
 func oneConfig(r *corr.Run, consts refConsts, n, sync int, nIds int, multiPct int) {
 	peers := genNodes(r, n, sync)
@@ -484,7 +482,7 @@ func oneConfig(r *corr.Run, consts refConsts, n, sync int, nIds int, multiPct in
 	staleCfg := func() rnc.Configuration {
 		var nodes []rnc.Node
 		for _, b := range base {
-			if r.Chance(60) {
+			if r.Chance(60) || hasType(b, rnc.NodeTypeCoordinator) {
 				nodes = append(nodes, b)
 			}
 		}
@@ -506,13 +504,6 @@ func oneConfig(r *corr.Run, consts refConsts, n, sync int, nIds int, multiPct in
 	// participants: every peer of the configuration and one client; each sees its own permutation of
 	// the entry list, some with extra entries WITHOUT the tree type, each through one of the Init paths
 	var parts []*participant
-	defer func() {
-		for _, p := range parts {
-			if c, ok := p.svc.(interface{ Close(context.Context) error }); ok && p.path == "updated" {
-				c.Close(context.Background())
-			}
-		}
-	}()
 	pathNo := r.Intn(len(initPaths))
 	mk := func(self, role string) {
 		nodes := permuted(r, base)
@@ -566,6 +557,15 @@ func oneConfig(r *corr.Run, consts refConsts, n, sync int, nIds int, multiPct in
 			svc, _, err = newParticipant(self, staleCfg(), &cur, nil)
 		case "updated":
 			svc, _, err = newParticipant(self, staleCfg(), nil, &cur)
+		case "stored-older-bundle-current":
+			// restart on an older STORED topology while the application bundle already names the network's
+			// current configuration: the update loop must ask relative to the ACTIVE (stored) id
+			old := staleCfg()
+			svc, _, err = newParticipant(self, cur, &old, &cur)
+		case "stored-older-bundle-older":
+			// stored and bundled configurations are two different old ones
+			old := staleCfg()
+			svc, _, err = newParticipant(self, staleCfg(), &old, &cur)
 		}
 		if err != nil {
 			violate("nodeconf.build", fmt.Sprintf("participant %s (%s) via %s: %v", role, self, path, err))
